@@ -18,3 +18,11 @@ Definition oclass_eqb (a b : option (pyexn * text)) : bool :=
   | _, _ => false
   end.
 Definition fmt_const (t : text) (_ : jv) : text := t.
+(** through WSGI the harness sees the fault code of the response, not the class of the fault *)
+Definition outcome_code_eqb (a b : outcome) : bool :=
+  match a, b with
+  | Called x, Called y => Nat.eqb x y
+  | Answered _ k1, Answered _ k2 => text_eqb k1 k2
+  | Escaped e1 _, Escaped e2 _ => exn_eq e1 e2
+  | _, _ => false
+  end.
